@@ -2,9 +2,11 @@ import N0Verif.Py.Basic
 import N0Verif.Val
 /-!
   The structural compare engine of py552/n0struct (C07–C10), modelled for the code
-  **with the fix patches C07-a, C08-a, C09-a and C07-b, C07-c, C09-b, C10-a applied**
+  **with the fix patches C07-a, C08-a, C09-a, C07-b, C07-c, C09-b, C10-a and C07-d, C08-b, C10-c applied**
   (the key of a list item that is not a record is `json.dumps(transformed item, sort_keys=True, default=repr)`;
-  a type clash inside a keyed list carries `[i]<>[j]`):
+  the key of a record is the same JSON text of the dictionary of its (transformed) key fields, the transform of a
+  key field being looked up with `prefix[i]/field`; a type clash inside a keyed list carries `[i]<>[j]`;
+  the numeric delta never raises):
 
   * flag machine                      `n0struct_utils_compare.py` 4-102
   * `xpath_match`                     `n0struct_utils_compare.py` 108-136
@@ -61,7 +63,8 @@ def Flags.run (f : Flags) : List (Setter × Bool) → Flags
   | [] => f
   | (s, v) :: rest => (f.set s v).run rest
 
-/-! ### `str()` / `repr()` of values (the key of non-record list items) -/
+/-! ### `str()` / `repr()` of values (`natStr`/`intStr` are used by the paths and the JSON text; `repr`/`str` of the
+other values were the key of list items before fixes C07-b / C08-b and are no longer used by the walks) -/
 
 def natDigitsAux : Nat → Nat → List Char → List Char
   | 0, _, acc => acc
@@ -165,15 +168,22 @@ def joinItems : List Str → Str
 /-- one member `"key": text` -/
 def memberText (kv : Str × Str) : Str := jsonStr kv.1 ++ [':', ' '] ++ kv.2
 
+/-- `float.__repr__` as the JSON encoder writes it: the lexeme, except for the three non-finite values -/
+def jsonFloat (r : Str) : Str :=
+  if r = ['i', 'n', 'f'] then ['I', 'n', 'f', 'i', 'n', 'i', 't', 'y']
+  else if r = ['-', 'i', 'n', 'f'] then ['-', 'I', 'n', 'f', 'i', 'n', 'i', 't', 'y']
+  else if r = ['n', 'a', 'n'] then ['N', 'a', 'N']
+  else r
+
 mutual
 /-- `json.dumps(v, sort_keys=True, default=repr)`: the members of a dictionary are written in the order of
-their keys; floats are their lexeme -/
+their keys; floats are their lexeme (`Infinity`, `-Infinity`, `NaN` for the non-finite ones) -/
 def jsonVal : Val → Str
   | .none => ['n', 'u', 'l', 'l']
   | .bool true => ['t', 'r', 'u', 'e']
   | .bool false => ['f', 'a', 'l', 's', 'e']
   | .int i => intStr i
-  | .flt r => r
+  | .flt r => jsonFloat r
   | .str s => jsonStr s
   | .list _ xs => '[' :: joinItems (jsonList xs) ++ [']']
   | .dict _ kvs => '{' :: joinItems ((sortMembers (jsonKvs kvs)).map memberText) ++ ['}']
@@ -405,37 +415,41 @@ def otherTail (p : Path) : Nat → List Val → List UE
 
 /-! ### `generate_composite_keys` -/
 
-/-- the `k=v;…` key of a record over the requested fields that are present -/
-def recordKey (cfg : Cfg) (p : Path) (kvs : List (Str × Val)) : List Str → Str → Except PyErr Str
-  | [], acc => .ok acc
+/-- `key_fields[key] = value`: assignment into a Python `dict` (a key that is already there keeps its place) -/
+def setField (k : Str) (v : Val) : List (Str × Val) → List (Str × Val)
+  | [] => [(k, v)]
+  | (k', v') :: rest => if k = k' then (k, v) :: rest else (k', v') :: setField k v rest
+
+/-- the key fields of a record: the requested fields that are present, each transformed by the function registered
+for the path of that field inside the item (`q` = the path of the item, `prefix[i]`: the path `n0dict.compare`
+looks the transform up with, fix C10-c) -/
+def recordFields (cfg : Cfg) (q : Path) (kvs : List (Str × Val)) : List Str → List (Str × Val) → List (Str × Val)
+  | [], acc => acc
   | key :: rest, acc =>
     match Val.lookup key kvs with
-    | none => recordKey cfg p kvs rest acc
-    | some v =>
-      let acc := if acc.isEmpty then acc else acc ++ [';']
-      let full := render p ++ '/' :: key
-      match xpathMatchFrom full 0 (cfg.tr.map (·.pat)) with
-      | 0 => recordKey cfg p kvs rest (acc ++ key ++ ['='] ++ pyStr v)
-      | i + 1 =>
-        match cfg.tr[i]? with
-        | none => .error .IndexError     -- unreachable: the index comes from the same list
-        | some t =>
-          match t.f v with
-          | .str s => recordKey cfg p kvs rest (acc ++ key ++ ['='] ++ s)
-          | _ => .error .TypeError       -- `str + non-str`
+    | none => recordFields cfg q kvs rest acc
+    | some v => recordFields cfg q kvs rest (setField key (transformAt cfg (q ++ [.key key]) v) acc)
 
-/-- the key of one list item: a record is keyed by its composite-key fields; any other item by the JSON text
-of the item transformed with the function registered for the path of the list -/
-def keyOf (cfg : Cfg) (p : Path) : Val → Except PyErr Str
-  | .dict _ kvs => if cfg.ck.pats.isEmpty then .ok [] else recordKey cfg p kvs cfg.ck.pats []
+/-- the key text of a record with key fields `fs`: the JSON text of the dictionary of the key fields (fix C08-b),
+the empty key when the record has none of them -/
+def fieldsKey : List (Str × Val) → Str
+  | [] => []
+  | f :: fs => jsonVal (.dict .plain (f :: fs))
+
+/-- the key of item `i` of the list at `p`: a record is keyed by the JSON text of its composite-key fields; any other
+item by the JSON text of the item transformed with the function registered for the path of the list.
+(`json.dumps(…, default=repr)` does not raise on the values of the model; the `Except` is kept for the callers.) -/
+def keyOf (cfg : Cfg) (p : Path) (i : Nat) : Val → Except PyErr Str
+  | .dict _ kvs => .ok (fieldsKey (recordFields cfg (p ++ [.idx i]) kvs cfg.ck.pats []))
   | v => .ok (jsonVal (transformAt cfg p v))
 
-def keysOf (cfg : Cfg) (p : Path) : List Val → Except PyErr (List Str)
-  | [] => .ok []
-  | x :: xs =>
-    match keyOf cfg p x with
+/-- the keys of the items `i, i+1, …` of the list at `p` -/
+def keysOf (cfg : Cfg) (p : Path) : Nat → List Val → Except PyErr (List Str)
+  | _, [] => .ok []
+  | i, x :: xs =>
+    match keyOf cfg p i x with
     | .error e => .error e
-    | .ok k => match keysOf cfg p xs with
+    | .ok k => match keysOf cfg p (i + 1) xs with
       | .error e => .error e
       | .ok ks => .ok (k :: ks)
 
@@ -481,10 +495,10 @@ def sub (cfg : Cfg) (site : Site) (p : Path) (v w : Val) : Except PyErr Res :=
       else if excluded cfg p then .ok Res.empty
       else if cfg.direct then directWalk cfg p (.list .n0 xs) (.list .n0 ys) 0 xs ys
       else
-        match keysOf cfg p xs with
+        match keysOf cfg p 0 xs with
         | .error e => .error e
         | .ok ks =>
-          match keysOf cfg p ys with
+          match keysOf cfg p 0 ys with
           | .error e => .error e
           | .ok ko =>
             keyedWalk cfg p (.list .n0 xs) (.list .n0 ys) 0 xs ks (mkEntries 0 ks xs) (mkEntries 0 ko ys)
